@@ -25,6 +25,7 @@ Definition tadd (a b : tv) : tv := match a, b with TQ x, TQ y => TQ (x + y) | _,
 (* IEEE comparisons: anything with NaN is false *)
 Definition tv_is0 (a : tv) : bool := match a with TQ x => Qeq_bool x 0 | TNaN => false end.
 Definition tv_ge (a b : tv) : bool := match a, b with TQ x, TQ y => Qle_bool y x | _, _ => false end.
+Definition tv_lt (a b : tv) : bool := match a, b with TQ x, TQ y => negb (Qle_bool y x) | _, _ => false end.
 Definition tv_pos (a : tv) : bool := match a with TQ x => negb (Qle_bool x 0) | TNaN => false end.
 Definition tv_finite (a : tv) : bool := match a with TQ _ => true | TNaN => false end.
 Definition tv_eqb (a b : tv) : bool :=
@@ -49,7 +50,8 @@ Fixpoint qsum (l : list Q) : Q := match l with [] => 0 | x :: r => x + qsum r en
 Inductive raw := R1 (ts : list tv) | R2.
 
 (* FList: list / tuple / scalar / "numpy..." string / file (all reach np.array(list, dtype=float));
-   FNdarray: a numpy array object passed as `times` (what Readout.replace does with its own _times) *)
+   FNdarray: a numpy array object passed as `times` (what Readout.replace does with its own _times); the
+   constructor handles it like a list iff it first converts it ([g_ndarray], regenerated) *)
 Inductive form := FList | FNdarray.
 
 Inductive guard :=
@@ -57,13 +59,14 @@ Inductive guard :=
 | GNdim1             (* ndim != 1 -> raise                                                             *)
 | GNonEmpty          (* size == 0 -> raise                                                             *)
 | GFirstNonZero      (* times[0] == 0 -> raise   (IndexError on an empty array: also a rejection)      *)
-| GStartBelowFirst   (* start >= times[0] -> raise                                                     *)
+| GStartBelowFirst   (* start >= times[0] -> raise        (negative form: a NaN on either side passes)    *)
+| GStartLtFirst      (* not start < times[0] -> raise     (positive form: a NaN on either side is refused)*)
 | GIncreasing.       (* not np.all(np.diff(times) > 0) -> raise                                        *)
 
 Definition guard_eqb (a b : guard) : bool :=
   match a, b with
   | GProvided, GProvided | GNdim1, GNdim1 | GNonEmpty, GNonEmpty | GFirstNonZero, GFirstNonZero
-  | GStartBelowFirst, GStartBelowFirst | GIncreasing, GIncreasing => true
+  | GStartBelowFirst, GStartBelowFirst | GStartLtFirst, GStartLtFirst | GIncreasing, GIncreasing => true
   | _, _ => false
   end.
 Definition gmem (g : guard) (l : list guard) : bool := existsb (guard_eqb g) l.
@@ -81,6 +84,8 @@ Definition guard_passes (g : guard) (start : tv) (r : raw) : bool :=
   | GFirstNonZero, R1 (t :: _) => negb (tv_is0 t)
   | GStartBelowFirst, R1 [] => false
   | GStartBelowFirst, R1 (t :: _) => negb (tv_ge start t)
+  | GStartLtFirst, R1 [] => false
+  | GStartLtFirst, R1 (t :: _) => tv_lt start t
   | GIncreasing, R1 ts => forallb tv_pos (tdiff ts)
   | _, R2 => true
   end.
@@ -91,6 +96,7 @@ Definition guards_pass (gs : list guard) (start : tv) (r : raw) : bool :=
 Definition concat_ok (r : raw) : bool := match r with R1 _ => true | R2 => false end.
 
 Record guard_table := {
+  g_ndarray : bool;             (* Readout.__init__ converts a numpy array given as `times` to a list first *)
   g_ctor : list guard;          (* Readout.__init__                       *)
   g_set_times : list guard;     (* Readout.times setter                   *)
   g_set_start : list guard;     (* Readout.start_time setter              *)
@@ -110,15 +116,14 @@ Inductive op :=
 | OReplaceStart (s : tv)         (* readout.replace(start_time=..) *)
 | OReplaceND (b : bool).         (* readout.replace(non_destructive=..) *)
 
-(* Readout(times=..., start_time=..., non_destructive=...) as coded.  An ndarray argument never gets
-   through: `elif times:` is ambiguous for size > 1 and eval_range refuses arrays otherwise. *)
+(* Readout(times=..., start_time=..., non_destructive=...) as coded.  Without the conversion an ndarray
+   argument never gets through: `elif times:` is ambiguous for size > 1 and eval_range refuses arrays
+   otherwise. *)
 Definition ctor (G : guard_table) (f : form) (r : raw) (s : tv) (nd : bool) : option readout :=
-  match f with
-  | FNdarray => None
-  | FList =>
-      if guards_pass (g_ctor G) s r && concat_ok r
-      then Some {| r_times := r; r_start := s; r_nd := nd |} else None
-  end.
+  if match f with FNdarray => g_ndarray G | FList => true end
+  then if guards_pass (g_ctor G) s r && concat_ok r
+       then Some {| r_times := r; r_start := s; r_nd := nd |} else None
+  else None.
 
 Definition apply_op (G : guard_table) (ro : readout) (o : op) : option readout :=
   match o with
@@ -200,6 +205,51 @@ Record empty_table := { e_always : list bucket; e_if_reset : list bucket }.
 (* what the models can read from the detector during one step *)
 Record clock := { c_time : tv; c_step : tv; c_abs : tv; c_count : Z; c_first : bool; c_last : bool }.
 
+(* ------------------------------------------------------------------------------------------------ *)
+(* 5a. the ReadoutProperties OBJECT a detector carries from one run to the next                        *)
+
+(* public state of a ReadoutProperties object: the sampling fixed by its constructor (times, steps,
+   num_steps, start_time, non_destructive) and the running part written by run_pipeline through the public
+   setters (time, time_step, pipeline_count).  start_time also has a public setter (it only stores). *)
+Record rp_state := { rp_times : list tv; rp_steps : list tv; rp_num : Z; rp_start : tv; rp_nd : bool;
+                     rp_time : tv; rp_step : tv; rp_count : Z }.
+
+(* ReadoutProperties.__init__(times, start_time, non_destructive): None = it raised *)
+Definition rp_init (G : guard_table) (ro : readout) : option rp_state :=
+  match r_times ro with
+  | R1 ts =>
+      if guards_pass (g_rp G) (r_start ro) (R1 ts)
+      then let sts := steps (r_start ro) ts in
+           Some {| rp_times := ts; rp_steps := sts; rp_num := Z.of_nat (length sts);
+                   rp_start := r_start ro; rp_nd := r_nd ro;
+                   rp_time := TQ 0; rp_step := TQ 1; rp_count := 0%Z |}
+      else None
+  | R2 => None
+  end.
+
+(* Detector.set_readout: does it always build a new ReadoutProperties from the readout it is given
+   (SRAlwaysNew, regenerated from the source), or does it keep an object it already has? *)
+Inductive sr_policy := SRAlwaysNew | SRKeepExisting.
+
+Definition set_readout (G : guard_table) (SR : sr_policy) (prev : option rp_state) (ro : readout)
+  : option rp_state :=
+  match SR, prev with
+  | SRKeepExisting, Some p => Some p
+  | _, _ => rp_init G ro
+  end.
+
+(* what the models read: detector.time / time_step / absolute_time / pipeline_count / is_first_readout /
+   is_last_readout all go through the object *)
+Definition rp_clock (p : rp_state) : clock :=
+  {| c_time := rp_time p; c_step := rp_step p; c_abs := tadd (rp_start p) (rp_time p);
+     c_count := rp_count p; c_first := Z.eqb (rp_count p) 0%Z;
+     c_last := Z.eqb (rp_count p) (rp_num p - 1)%Z |}.
+
+(* the three stores at the top of every iteration of run_pipeline's loop *)
+Definition rp_tick (p : rp_state) (t st : tv) (i : Z) : rp_state :=
+  {| rp_times := rp_times p; rp_steps := rp_steps p; rp_num := rp_num p; rp_start := rp_start p;
+     rp_nd := rp_nd p; rp_time := t; rp_step := st; rp_count := i |}.
+
 Section Lifecycle.
   Variable A : Type.          (* an array of the detector's shape *)
   Variable zero : A.          (* np.zeros(shape) *)
@@ -274,6 +324,69 @@ Section Lifecycle.
     end.
 
   (* ---------------------------------------------------------------------------------------------- *)
+  (* the detector as an OBJECT that lives across runs: buckets + the ReadoutProperties object           *)
+
+  Record dstate := { ds_det : det; ds_rp : option rp_state }.
+
+  (* the loop of run_pipeline as coded: over zip(readout_properties.times, readout_properties.steps),
+     storing time / time_step / pipeline_count INTO the object; the models read the clock FROM the object,
+     and empty(reset) is driven by the object's non_destructive flag *)
+  Fixpoint obj_loop (E : empty_table) (prog : program) (i : Z) (tss : list (tv * tv)) (p : rp_state) (d : det)
+    : list observation * (det * rp_state) :=
+    match tss with
+    | [] => ([], (d, p))
+    | (t, st) :: rest =>
+        let p1 := rp_tick p t st i in
+        let d1 := det_empty E (negb (rp_nd p1)) d in
+        let d2 := prog (rp_clock p1) d1 in
+        let (os, fin) := obj_loop E prog (i + 1)%Z rest p1 d2 in
+        ({| o_clock := rp_clock p1; o_begin := d1; o_end := d2 |} :: os, fin)
+    end.
+
+  (* run_pipeline on a detector in state [st]: set_readout (may or may not replace the object), empty(),
+     loop.  Returns the outcome and the state the detector is left in. *)
+  Definition run_readout_st (G : guard_table) (E : empty_table) (SR : sr_policy) (ro : readout) (prog : program)
+             (st : dstate) : outcome * dstate :=
+    match set_readout G SR (ds_rp st) ro with
+    | None => (Rejected 2, st)
+    | Some p =>
+        let (os, fin) := obj_loop E prog 0%Z (combine (rp_times p) (rp_steps p)) p
+                                  (det_empty E true (ds_det st)) in
+        (Ran os, {| ds_det := fst fin; ds_rp := Some (snd fin) |})
+    end.
+
+  Definition scenario_st (G : guard_table) (E : empty_table) (SR : sr_policy) (f : form) (r : raw) (s : tv)
+             (nd : bool) (ops : list op) (prog : program) (st : dstate) : outcome * dstate :=
+    match ctor G f r s nd with
+    | None => (Rejected 0, st)
+    | Some ro =>
+        match apply_ops G ro ops with
+        | None => (Rejected 1, st)
+        | Some ro' => run_readout_st G E SR ro' prog st
+        end
+    end.
+
+  (* a session: several runs on ONE detector object.  Between two runs the caller may do anything to the
+     detector through its public attributes ([rs_tamper]: assign readout_properties.start_time / time /
+     time_step / pipeline_count, fill buckets, ...); each run has its own Readout (any construction
+     history, possibly the same object as before with further setter calls) and its own models. *)
+  Record run_spec := { rs_tamper : dstate -> dstate; rs_form : form; rs_raw : raw; rs_start : tv; rs_nd : bool;
+                       rs_ops : list op; rs_prog : program }.
+
+  Fixpoint session (G : guard_table) (E : empty_table) (SR : sr_policy) (runs : list run_spec) (st : dstate)
+    : list outcome :=
+    match runs with
+    | [] => []
+    | r :: rest =>
+        let (o, st') := scenario_st G E SR (rs_form r) (rs_raw r) (rs_start r) (rs_nd r) (rs_ops r) (rs_prog r)
+                                    (rs_tamper r st) in
+        o :: session G E SR rest st'
+    end.
+
+  Definition blank : det :=
+    {| scene := None; photon := None; charge := None; pixel := None; signal := None; image := None |}.
+
+  (* ---------------------------------------------------------------------------------------------- *)
   (* closed forms = the right-hand side of the theorems                                              *)
 
   Definition spec_clock (start : tv) (ts : list tv) (i : nat) : clock :=
@@ -300,10 +413,19 @@ Arguments scene {A}. Arguments photon {A}. Arguments charge {A}.
 Arguments pixel {A}. Arguments signal {A}. Arguments image {A}.
 Arguments o_clock {A}. Arguments o_begin {A}. Arguments o_end {A}.
 Arguments Rejected {A}. Arguments Ran {A}.
+Arguments ds_det {A}. Arguments ds_rp {A}.
+Arguments rs_tamper {A}. Arguments rs_form {A}. Arguments rs_raw {A}. Arguments rs_start {A}.
+Arguments rs_nd {A}. Arguments rs_ops {A}. Arguments rs_prog {A}.
 
 (* completeness conditions on the regenerated tables (checked by vm_compute in Properties/C02.v) *)
+(* ReadoutProperties.__init__ has the three elementwise guards, the start guard in either form: enough to
+   refuse every invalid NaN-FREE schedule *)
 Definition rp_complete (G : guard_table) : bool :=
-  gmem GFirstNonZero (g_rp G) && gmem GStartBelowFirst (g_rp G) && gmem GIncreasing (g_rp G).
+  gmem GFirstNonZero (g_rp G) && (gmem GStartBelowFirst (g_rp G) || gmem GStartLtFirst (g_rp G))
+  && gmem GIncreasing (g_rp G).
+(* ... with the start guard in the positive form: enough to refuse EVERY invalid schedule, NaN included *)
+Definition rp_complete_nan (G : guard_table) : bool :=
+  gmem GFirstNonZero (g_rp G) && gmem GStartLtFirst (g_rp G) && gmem GIncreasing (g_rp G).
 
 Definition empty_table_ok (E : empty_table) : bool :=
   forallb (fun b => bmem b (e_always E)) [Scene; Photon; Charge; Signal; Image]
@@ -362,19 +484,52 @@ Inductive ioutcome := IRejected (stage : Z) (executed : Z) | IRan (obs : list (o
 Record c02_case := {
   k_form : form; k_raw : raw; k_start : tv; k_nd : bool; k_ops : list op;
   k_d0 : det Z;                      (* bucket state found on the detector before the run *)
+  k_rp0 : option rp_state;           (* public state of the detector's ReadoutProperties object before the run
+                                        (None = no readout defined yet) *)
   k_plan : list (list wop);          (* what the writer probes do at each step *)
-  k_obs : ioutcome
+  k_obs : ioutcome;
+  k_after : option (det Z * option rp_state)   (* state the detector object was found in right after the run
+                                        (None: not compared, e.g. an Observation runs on copies) *)
 }.
 
-Definition model_of (G : guard_table) (E : empty_table) (c : c02_case) : outcome Z :=
-  scenario Z 0%Z G E (k_form c) (k_raw c) (k_start c) (k_nd c) (k_ops c) (prog_of (k_plan c)) (k_d0 c).
+Definition mkrp (ts sts : list tv) (num : Z) (start : tv) (nd : bool) (t st : tv) (cnt : Z) : rp_state :=
+  {| rp_times := ts; rp_steps := sts; rp_num := num; rp_start := start; rp_nd := nd;
+     rp_time := t; rp_step := st; rp_count := cnt |}.
 
-Definition case_mismatch (G : guard_table) (E : empty_table) (c : c02_case) : bool :=
-  negb match model_of G E c, k_obs c with
+(* the run as the object-level model computes it, from the detector state (buckets AND ReadoutProperties
+   object) the implementation was observed in just before the run *)
+Definition model_of (G : guard_table) (E : empty_table) (SR : sr_policy) (c : c02_case) : outcome Z :=
+  fst (scenario_st Z 0%Z G E SR (k_form c) (k_raw c) (k_start c) (k_nd c) (k_ops c) (prog_of (k_plan c))
+                   {| ds_det := k_d0 c; ds_rp := k_rp0 c |}).
+
+Definition rp_eqb (a b : rp_state) : bool :=
+  list_eqb tv_eqb (rp_times a) (rp_times b) && list_eqb tv_eqb (rp_steps a) (rp_steps b)
+  && Z.eqb (rp_num a) (rp_num b) && tv_eqb (rp_start a) (rp_start b) && Bool.eqb (rp_nd a) (rp_nd b)
+  && tv_eqb (rp_time a) (rp_time b) && tv_eqb (rp_step a) (rp_step b) && Z.eqb (rp_count a) (rp_count b).
+Definition orp_eqb (a b : option rp_state) : bool :=
+  match a, b with Some x, Some y => rp_eqb x y | None, None => true | _, _ => false end.
+
+(* the state the object-level model leaves the detector in (buckets and ReadoutProperties object) *)
+Definition state_after (G : guard_table) (E : empty_table) (SR : sr_policy) (c : c02_case) : dstate Z :=
+  snd (scenario_st Z 0%Z G E SR (k_form c) (k_raw c) (k_start c) (k_nd c) (k_ops c) (prog_of (k_plan c))
+                   {| ds_det := k_d0 c; ds_rp := k_rp0 c |}).
+
+Definition after_ok (st : dstate Z) (a : option (det Z * option rp_state)) : bool :=
+  match a with
+  | None => true
+  | Some (d, rp) => det_eqb (ds_det st) d && orp_eqb (ds_rp st) rp
+  end.
+
+Definition case_mismatch (G : guard_table) (E : empty_table) (SR : sr_policy) (c : c02_case) : bool :=
+  negb match model_of G E SR c, k_obs c with
        | Rejected s, IRejected s' n => Z.eqb s s' && Z.eqb n 0%Z
        | Ran os, IRan os' => list_eqb obs_eqb os os'
        | _, _ => false
        end.
+
+(* informational only (what a run leaves behind is not part of the property; recorded in the evidence) *)
+Definition case_after_differs (G : guard_table) (E : empty_table) (SR : sr_policy) (c : c02_case) : bool :=
+  negb (after_ok (state_after G E SR c) (k_after c)).
 
 (* the specification, evaluated on the implementation's observations alone *)
 Fixpoint obs_ok (nd : bool) (start : tv) (ts : list tv) (i : nat) (prev : option (det Z))
@@ -407,6 +562,8 @@ Fixpoint indices_where {X} (f : X -> bool) (l : list X) (i : Z) : list Z :=
   | [] => []
   | x :: r => if f x then i :: indices_where f r (i + 1)%Z else indices_where f r (i + 1)%Z
   end.
-Definition mismatches (G : guard_table) (E : empty_table) (cs : list c02_case) : list Z :=
-  indices_where (case_mismatch G E) cs 0%Z.
+Definition mismatches (G : guard_table) (E : empty_table) (SR : sr_policy) (cs : list c02_case) : list Z :=
+  indices_where (case_mismatch G E SR) cs 0%Z.
 Definition violations (cs : list c02_case) : list Z := indices_where case_violates cs 0%Z.
+Definition after_differs (G : guard_table) (E : empty_table) (SR : sr_policy) (cs : list c02_case) : list Z :=
+  indices_where (case_after_differs G E SR) cs 0%Z.
